@@ -1483,7 +1483,7 @@ def apply_rules(toks, rules, fired):
         elif r.startswith("R15:"):
             toks = rule_R15(toks, fired, [b for b in r[4:].split("|") if b])
         elif r.startswith("tparam:"):
-            a, b = r[7:].split(">")
+            a, _, b = r[7:].partition(">")
             toks = rule_R1(toks, fired, a, b)
         elif r not in RULES:
             raise ExtractError(f"unknown rule {r}")
